@@ -5,6 +5,7 @@ import ast
 import re
 
 from vk import astx, numkind
+from vk.report import shape_rule
 from vk.algebra import Normalizer, bool_key, literals, spec_rat, NotClosedForm
 from vk.orderpipe import OrderPipe, ORD, NEW, UNORD, UNK
 from vk.loader import AnalysisError
@@ -157,6 +158,7 @@ def check_order(ctx, prog, f, what=""):
     return n
 
 
+@shape_rule
 def r2_order(ctx):
     prog = ctx.prog
     total = 0
@@ -279,6 +281,7 @@ def weight_class(prog, f, c: ast.Call):
     return "OTHER", k
 
 
+@shape_rule
 def r3_weight_provenance(ctx):
     prog = ctx.prog
     expect = {"remove_cand": {"COPY", "ZERO", "DEFAULT"}, "add_missing_cands": {"COPY", "DEFAULT"},
@@ -417,6 +420,7 @@ def r5_exact(ctx):
                 ctx.violated(f, n, f"{f.name}: int/int true division", f"`{astx.u(n)[:60]}` divides {l} by {r}: a binary float in an exact-arithmetic utility")
 
 
+@shape_rule
 def r6_group_and_merge(ctx):
     prog = ctx.prog
     f = prog.find_func("merge_ballots")
